@@ -453,33 +453,73 @@ class CondVar
  * "the last owner went away" and "expired()" are visible, schedulable steps.
  *----------------------------------------------------------------------------------------*/
 template <class T>
+struct Ctrl;
+// rarely needed parts of a control block, allocated on demand: the block itself stays as small as the one of the
+// standard library (an allocator given to allocate_shared may hand out storage of exactly that size)
+template <class T>
+struct CtrlSide {
+  T *ext{nullptr};                   // object adopted through a pointer (shared_ptr<T>{p} / {p, deleter} / reset(p))
+  void (*del)(Ctrl<T> *){nullptr};   // how an adopted object is destroyed (custom deleter), null: delete
+  void *dstate{nullptr};             // copy of the custom deleter
+  bool adopted{false};
+  void (*release)(Ctrl<T> *){nullptr};  // allocate_shared: gives the control block back to the allocator it came from
+  void *astate{nullptr};                // copy of that allocator
+};
+
+template <class T>
 struct Ctrl {
   Atomic<long> strong{1};
   long weak{1};  // +1 for the group of strong owners; touched only by the running thread
-  T *ext{nullptr};                // object adopted through a pointer (shared_ptr<T>{p} / {p, deleter} / reset(p))
-  void (*del)(Ctrl *){nullptr};   // how an adopted object is destroyed (custom deleter), null: delete
-  void *dstate{nullptr};          // copy of the custom deleter
-  bool adopted{false};
+  CtrlSide<T> *side{nullptr};
   alignas(T) unsigned char buf[sizeof(T)];
-  T *Ptr() { return adopted ? ext : std::launder(reinterpret_cast<T *>(buf)); }
+  CtrlSide<T> &
+  Side()
+  {
+    if (side == nullptr) side = new CtrlSide<T>{};
+    return *side;
+  }
+  T *Ptr() { return (side != nullptr && side->adopted) ? side->ext : std::launder(reinterpret_cast<T *>(buf)); }
   void
   Destroy()
   {
-    if (!adopted) {
+    if (side == nullptr || !side->adopted) {
       Ptr()->~T();
-    } else if (del != nullptr) {
-      del(this);
+    } else if (side->del != nullptr) {
+      side->del(this);
     } else {
-      delete ext;
+      delete side->ext;
     }
   }
   template <class D>
   static void
   RunDeleter(Ctrl *c)
   {
-    auto *d = static_cast<D *>(c->dstate);
-    (*d)(c->ext);
+    auto *d = static_cast<D *>(c->side->dstate);
+    (*d)(c->side->ext);
     delete d;
+  }
+  // the last (strong or weak) reference is gone
+  static void
+  Free(Ctrl *c)
+  {
+    if (c->side != nullptr && c->side->release != nullptr) {
+      c->side->release(c);
+    } else {
+      delete c->side;
+      delete c;
+    }
+  }
+  template <class A>
+  static void
+  ReleaseThroughAllocator(Ctrl *c)
+  {
+    using CA = typename std::allocator_traits<A>::template rebind_alloc<Ctrl>;
+    auto *a = static_cast<CA *>(c->side->astate);
+    CA alloc{*a};
+    delete a;
+    delete c->side;
+    c->~Ctrl();
+    std::allocator_traits<CA>::deallocate(alloc, c, 1);
   }
 };
 
@@ -502,16 +542,16 @@ class SharedPtr
   // i.e. right after the step that makes the strong count zero)
   explicit SharedPtr(T *p) : c_{new Ctrl<T>{}}
   {
-    c_->adopted = true;
-    c_->ext = p;
+    c_->Side().adopted = true;
+    c_->Side().ext = p;
   }
   template <class D>
   SharedPtr(T *p, D d) : c_{new Ctrl<T>{}}
   {
-    c_->adopted = true;
-    c_->ext = p;
-    c_->dstate = new D(std::move(d));
-    c_->del = &Ctrl<T>::template RunDeleter<D>;
+    c_->Side().adopted = true;
+    c_->Side().ext = p;
+    c_->Side().dstate = new D(std::move(d));
+    c_->Side().del = &Ctrl<T>::template RunDeleter<D>;
   }
   void
   reset(T *p)
@@ -571,7 +611,7 @@ class SharedPtr
     if (!c_) return;
     if (c_->strong.fetch_sub(1, std::memory_order_acq_rel) == 1) {
       c_->Destroy();
-      if (--c_->weak == 0) delete c_;
+      if (--c_->weak == 0) Ctrl<T>::Free(c_);
     }
   }
 };
@@ -620,7 +660,7 @@ class WeakPtr
   }
   ~WeakPtr()
   {
-    if (c_ && --c_->weak == 0) delete c_;
+    if (c_ && --c_->weak == 0) Ctrl<T>::Free(c_);
   }
   void
   reset() noexcept
@@ -671,6 +711,22 @@ MakeShared(Args &&...args)
 {
   auto *c = new Ctrl<T>{};
   ::new (static_cast<void *>(c->buf)) T(std::forward<Args>(args)...);
+  return SharedPtr<T>{c, 0};
+}
+
+// allocate_shared: control block and object in one block obtained from (a rebound copy of) the allocator, given back
+// to it when the last strong or weak reference is gone - as the standard library does
+template <class T, class A, class... Args>
+SharedPtr<T>
+AllocateShared(const A &a, Args &&...args)
+{
+  using CA = typename std::allocator_traits<A>::template rebind_alloc<Ctrl<T>>;
+  CA ca{a};
+  Ctrl<T> *c = std::allocator_traits<CA>::allocate(ca, 1);
+  ::new (static_cast<void *>(c)) Ctrl<T>{};
+  ::new (static_cast<void *>(c->buf)) T(std::forward<Args>(args)...);
+  c->Side().astate = new CA{ca};
+  c->Side().release = &Ctrl<T>::template ReleaseThroughAllocator<A>;
   return SharedPtr<T>{c, 0};
 }
 
@@ -763,6 +819,12 @@ vshim_make_shared(Args &&...args)
 {
   return ::vshim::MakeShared<T>(std::forward<Args>(args)...);
 }
+template <class T, class A, class... Args>
+inline ::vshim::SharedPtr<T>
+vshim_allocate_shared(const A &a, Args &&...args)
+{
+  return ::vshim::AllocateShared<T>(a, std::forward<Args>(args)...);
+}
 inline void
 vshim_atomic_thread_fence(std::memory_order mo) noexcept
 {
@@ -851,6 +913,7 @@ vshim_mm_pause() noexcept
 #define shared_ptr vshim_shared_ptr
 #define weak_ptr vshim_weak_ptr
 #define make_shared vshim_make_shared
+#define allocate_shared vshim_allocate_shared
 #define sleep_for vshim_sleep_for
 #define get_id vshim_get_id
 #define _mm_pause vshim_mm_pause
